@@ -158,3 +158,17 @@ def run(ctx, rep, tier):
         last = evs[-1] if evs else None
         rep.check(last is not None and last.kind == "RET" and last.a == "FAIL", "C10.e",
                   "CodegenCtx._generate_condition_point_body", "fallback", "condition point fallback is not return FAIL")
+
+
+def _shared(ctx, rep, tier):
+    from .shared import delegate
+    delegate(ctx, rep, tier, "C05", ("C05.d",), "C10.g", "OK is only returned with the whole chunk consumed: a transition whose actions may (not must) leave keeps its state store and continuation "
+             "- override modes declared by actions agree with their templates", where="ConditionalAction.get_target_override_mode")
+
+
+_run0 = run
+
+
+def run(ctx, rep, tier):
+    _run0(ctx, rep, tier)
+    _shared(ctx, rep, tier)
